@@ -101,13 +101,15 @@ def zero_cases(rng, count):
         cells = [(i, j) for i in range(sz[zc[0]]) for j in range(sz[zc[1]])]
         if len(cells) < 2:
             continue
-        shape = rng.choice(["scattered", "row", "column"])
+        shape = rng.choice(["scattered", "row", "column", "origin"])
         if shape == "row":
             i = rng.randrange(sz[zc[0]])
             z = [(i, j) for j in range(sz[zc[1]])]
         elif shape == "column":
             j = rng.randrange(sz[zc[1]])
             z = [(i, j) for i in range(sz[zc[0]])]
+        elif shape == "origin":
+            z = [(0, 0)]                      # the only declared-impossible cell is the all-zero index
         else:
             z = rng.sample(cells, rng.randint(1, max(1, len(cells) - 1)))
         if len(z) >= len(cells):
